@@ -105,8 +105,12 @@ def gen_op(rng, w):
     if r < 0.08:
         return ['alias', w.fresh(), t]
     if r < 0.30:
-        opn = rng.choice(['+=', '-=', '*=', '/='])
+        opn = rng.choice(['+=', '-=', '*=', '/=', '+=', '-=', '*=', '/=', '%='])
         rr = rng.random()
+        if opn == '%=':
+            if rr < 0.3:
+                return ['iop', t, opn, gen_dense(rng, 1, 1, rng.choice([tc, 'i', 'd']))]
+            return ['iop', t, opn, {'k': 'num', 'v': rng.choice([1, -1, 2, 3, -3, 2.0, -2.0, 0.5, 4, 2.5, 0, [0.0, 2.0]])}]
         if opn == '/=':
             return ['iop', t, opn, {'k': 'num', 'v': rng.choice([1, -1, 2, 2.0, -2.0, 0.5, 4.0, [0.0, 2.0]])}]
         if rr < 0.4:
@@ -198,8 +202,22 @@ def gen_derive(rng, w, t):
     names = w.sorted_names()
     kind = rng.choice(['add', 'sub', 'mul', 'div', 'neg', 'pos', 'abs', 'T', 'H', 'real', 'imag', 'get1', 'get2', 'get2', 'copy',
                        'reshape', 'convert', 'emul', 'addnum', 'rsubnum', 'smul', 'ediv', 'emax', 'emin', 'vstack', 'hstack', 'fromlist',
-                       'raddnum', 'mulnum', 'subnum'])
+                       'raddnum', 'mulnum', 'subnum', 'rem', 'pow', 'efun'])
     nm = w.fresh()
+    if kind == 'rem':
+        if rng.random() < 0.25:
+            cands = [k for k in names if w.o(k)['M'].size == (1, 1)]
+            if cands and rng.random() < 0.8:
+                return ['derive', nm, 'rem', t, {'k': 'ref', 'name': rng.choice(cands)}]
+            return ['derive', nm, 'rem', t, {'k': 'ref', 'name': rng.choice(names)}]
+        return ['derive', nm, 'rem', t, {'k': 'num', 'v': rng.choice([1, -1, 2, 3, -3, 5, 2.0, -2.0, 0.5, 4, 2.5, -0.75, 0, 0.0, [0.0, 2.0]])}]
+    if kind == 'pow':
+        return ['derive', nm, 'pow', t, {'k': 'num', 'v': rng.choice([2, 3, 0, 1, -1, -2, 2.0, 0.5, -1.0, [2.0, 0.0], [0.0, 1.0], [-1.0, 0.0]])}]
+    if kind == 'efun':
+        arg = None
+        if rng.random() < 0.15:
+            arg = {'k': 'num', 'v': rng.choice([0, 1, 2, -1, 0.5, -2.5, 4.0, [0.0, 0.0], [1.0, -2.0], [-4.0, 0.0]])}
+        return ['derive', nm, 'efun', t, rng.choice(['exp', 'log', 'sqrt', 'cos', 'sin']), arg]
     if kind == 'fromlist':
         vt = rng.choice(['i', 'd', 'z'])
         mm, nn = rng.randint(0, 3), rng.randint(0, 3)
@@ -262,6 +280,10 @@ def attempt(opname, real_fn, model_fn, **extra):
     try:
         rr = real_fn()
     except DOC_EXC as e:
+        rex = e
+    except NotImplementedError as e:
+        if str(e) != 'complex modulo':      # the one operation the package declares not implemented
+            raise Mismatch('undocumented-exception', '%s raised %s(%s)' % (opname, type(e).__name__, e), op=opname, exc=type(e).__name__, **extra)
         rex = e
     except Exception as e:     # noqa
         raise Mismatch('undocumented-exception', '%s raised %s(%s)' % (opname, type(e).__name__, e), op=opname, exc=type(e).__name__, **extra)
@@ -363,6 +385,8 @@ def apply(op, w, stats):
                 X.__isub__(b_real)
             elif opn == '*=':
                 X.__imul__(b_real)
+            elif opn == '%=':
+                X.__imod__(b_real)
             else:
                 X.__itruediv__(b_real)
         _, _, refused = attempt('iop' + opn, fr, lambda: MDL.inplace(M, opn, b_model_use), inplace=opn)
@@ -500,6 +524,11 @@ def apply(op, w, stats):
                 fr, fm = (lambda: v - X), (lambda: MDL.rsub(M, v))
             else:
                 fr, fm = (lambda: v * X), (lambda: MDL.mul(M, v))
+        elif dk == 'rem':
+            Y, N = operand(w, op[4])
+            fr, fm = (lambda: X % Y), (lambda: MDL.rem(M, N))
+        elif dk in ('pow', 'efun'):
+            return apply_inexact(op, w, X, M, bump)
         elif dk == 'neg':
             fr, fm = (lambda: -X), (lambda: MDL.neg(M))
         elif dk == 'pos':
@@ -549,6 +578,71 @@ def apply(op, w, stats):
                 raise Mismatch('model-differs', '%s: scalar result %r, model %r' % (dk, rr, mr), op='derive.' + dk, tc=M.tc)
         return
     raise ValueError(kind)
+
+
+def close(a, b, tol):
+    if a == b:
+        return True
+    try:
+        return abs(a - b) <= tol * max(abs(a), abs(b), 1e-300)
+    except OverflowError:
+        return False
+
+
+def apply_inexact(op, w, X, M, bump):
+    """A ** number and the elementwise functions exp, log, sqrt, cos, sin: size, type, refusals and
+    newness are exact matters, the values are those of the C library — compared with Python's
+    math (same libm: 4 ulp allowed) and cmath (other algorithms: 1e-12 relative); the result does
+    not join the pool, where everything must stay exact"""
+    import cvxopt
+    from cvxopt import matrix
+    dk = op[2]
+    if any(abs(v) > 30 for v in M.v):
+        return        # exp overflows and huge arguments of sin/cos are not what this is about
+    if dk == 'pow':
+        e = lit(op[4]['v'])
+        fr, fm = (lambda: X ** e), (lambda: MDL.powm(M, e))
+        size = M.size
+        scalar_arg = False
+    else:
+        fname, arg = op[4], op[5]
+        f = getattr(cvxopt, fname)
+        if arg is not None:
+            a = lit(arg['v'])
+            fr, fm = (lambda: f(a)), (lambda: MDL.efun(fname, a))
+            scalar_arg = True
+        else:
+            fr, fm = (lambda: f(X)), (lambda: MDL.efun(fname, M))
+            scalar_arg = False
+        size = M.size
+    opname = 'derive.' + dk + ('' if dk == 'pow' else '.' + op[4])
+    rr, mr, refused = attempt(opname, fr, fm, tc=M.tc)
+    if refused:
+        bump('refused')
+        return
+    tc, vals = mr
+    tol = 1e-12 if tc == 'z' else 1e-15
+    if scalar_arg:
+        want = complex if tc == 'z' else float
+        if type(rr) is not want or not (close(rr, vals[0], tol) or (tc == 'z' and a.imag == 0 and close(rr, vals[0].conjugate(), tol))):
+            raise Mismatch('model-differs', '%s of the number %r: %r, the model %r' % (op[4], lit(op[5]['v']), rr, vals[0]), op=opname, tc='num')
+        return
+    if not isinstance(rr, matrix):
+        raise Mismatch('result-class', '%s returned %s, the model a matrix' % (opname, type(rr).__name__), op=opname)
+    for oid, oe in w.objs.items():
+        if oe['X'] is rr:
+            raise Mismatch('not-a-new-object', '%s returned an existing object instead of a new one' % opname, op=opname)
+    got = list(rr)
+
+    def agree(a, b, src):
+        if b is None or close(a, b, tol):
+            return True
+        # on the branch cut (negative real axis) the sign of a zero imaginary part decides, and the
+        # model does not track signed zeros
+        return tc == 'z' and complex(src).imag == 0 and close(a, b.conjugate(), tol)
+    if rr.size != size or rr.typecode != tc or len(got) != len(vals) or not all(agree(a, b, c) for a, b, c in zip(got, vals, M.v)):
+        raise Mismatch('model-differs', '%s: result %s %s %r, model %s %s %r' % (opname, rr.typecode, rr.size, got[:6], tc, size, vals[:6]),
+                       op=opname, tc=M.tc)
 
 
 def check_world(w, opname):
